@@ -8,6 +8,7 @@ import Frrs.Proofs.Stanza
 import Frrs.Identity
 import Frrs.Proofs.Replace
 import Frrs.Props.C05
+import Frrs.Proofs.CliValues
 namespace Frrs.C04
 open Frrs
 set_option linter.unusedSimpArgs false
@@ -254,5 +255,26 @@ theorem other_header_verbatim (o : FOpts) (s : FState) (line inp : Bytes)
             line == b!"deleteall\n") = false) :
     commitLine o s line inp = .cont (s.push line) inp :=
   commit_other_line_verbatim o s line inp hm h1 h2 h3 h4 h5
+
+/-! ### the date options as typed on the command line (opts.rs `parse_duration`, `parse_timestamp`) -/
+
+/-- the unit names of `--date-shift` have the documented lengths (the whole table) -/
+theorem date_shift_units :
+    [b!"second", b!"seconds", b!"s", b!"minute", b!"minutes", b!"min", b!"mins", b!"m", b!"hour", b!"hours", b!"h",
+     b!"day", b!"days", b!"d", b!"week", b!"weeks", b!"w", b!"month", b!"months", b!"mo", b!"year", b!"years", b!"y"].map unitSeconds =
+    [some 1, some 1, some 1, some 60, some 60, some 60, some 60, some 60, some 3600, some 3600, some 3600,
+     some 86400, some 86400, some 86400, some 604800, some 604800, some 604800, some 2592000, some 2592000, some 2592000,
+     some 31536000, some 31536000, some 31536000] := unit_table
+
+-- tests (concrete values, not the claim): the examples of the help text, the sign applies to the sum, saturation, refusals
+example : parseDuration b!"+2 hours" = some 7200 := by decide +kernel
+example : parseDuration b!"-1 day 3 hours" = some (-97200) := by decide +kernel
+example : parseDuration b!"+30 minutes" = some 1800 := by decide +kernel
+example : parseDuration b!"300000000000 years" = some i64Max := by decide +kernel
+example : parseDuration b!"2 fortnights" = none ∧ parseDuration b!"2" = none := by decide +kernel
+example : parseTimestamp b!"1700000000" = some 1700000000 := by decide +kernel
+example : parseTimestamp b!"2024-01-01T00:00:00Z" = some 1704067200 := by decide +kernel
+example : parseTimestamp b!"2024-03-01T12:00:00+09:00" = some 1709262000 := by decide +kernel
+example : parseTimestamp b!"2024-02-30" = none ∧ parseTimestamp b!"2024/03/01" = none := by decide +kernel
 
 end Frrs.C04
